@@ -28,7 +28,7 @@ RULE = (
     'complete Cartesian products: (certification set x altitude x Mach x scale) with the whole '
     'fuel-flow alphabet (every branch point and +-1 ulp) evaluated as one vector per case; ISA altitude '
     'alphabet x call form; smoke-number^4 x engine type x bypass ratio; sulfur x yield; FOA3 thrust x HC; '
-    'MEEM engine variant x altitude x Mach x scale; all 75 relative orders (with ties) of the four calibration flows; near-degenerate certification data (a flow or index placed 1 ulp ... 1e-3 absolute / relative next to its neighbour, for engines from a few g/s to several kg/s); every function x representation of its numeric inputs (float64/float32/int64/int32 arrays, strided / reversed / read-only / byte-swapped views; lists, tuples, Python and numpy scalars, 0-d arrays for the functions documented for scalars); degenerate calibration-flow rows (single point, three equal, pairs, blank cells) x index rows x altitude; every optional parameter of the FFM2 correction (omitted / default / two other values each, keyword and positional); ordered pairs of certification sets x altitude pairs evaluated on ONE set of argument objects refilled in place four times; every SCOPE11 case '
+    'MEEM engine variant x altitude x Mach x scale; all 75 relative orders (with ties) of the four calibration flows; construction route / key order of every ThrustModeValues argument (positional, ndarray, all 24 dict key orders, item-by-item fills, arithmetic results); sulfur content and the other fuel parameters down to 5e-324 through three Fuel construction routes (keywords, model_validate, TOML file); near-degenerate certification data (a flow or index placed 1 ulp ... 1e-3 absolute / relative next to its neighbour, for engines from a few g/s to several kg/s); every function x representation of its numeric inputs (float64/float32/int64/int32 arrays, strided / reversed / read-only / byte-swapped views; lists, tuples, Python and numpy scalars, 0-d arrays for the functions documented for scalars); degenerate calibration-flow rows (single point, three equal, pairs, blank cells) x index rows x altitude; every optional parameter of the FFM2 correction (omitted / default / two other values each, keyword and positional); ordered pairs of certification sets x altitude pairs evaluated on ONE set of argument objects refilled in place four times; every SCOPE11 case '
     'also runs a fixed call sequence (five short-lived argument objects, then one mutable object edited in place four times). A case is non-trivial when at least one value was '
     'compared with the reference (or a documented refusal was observed); distinct = distinct case'
 )
@@ -205,6 +205,14 @@ ORDER_VALUES = [0.11, 0.343, 1.031, 1.293]
 FLOW_ORDERINGS = _weak_orderings(4)  # every relative order (with ties) of idle/approach/climb/take-off flows
 
 
+# construction route of every ThrustModeValues argument: same values, same expected result
+TMV_ROUTES = (
+    ['positional', 'ndarray', 'fill-reversed', 'fill-takeoff-first', 'arithmetic-of-reversed', 'copy-of-reversed', 'or-merge-of-reversed']
+    + ['dict:' + ''.join(map(str, pm)) for pm in itertools.permutations(range(4))]
+)
+ROUTE_CERTS = ['shipped', 'unclamped', 'second-mode', 'nonmono-flows']
+
+
 # near-degenerate certification data: one quantity placed next to another at a given distance
 NEAR_BASES = {
     # flows of a few g/s (small turbofan / APU-sized), tenths of a kg/s, the shipped engine, a large engine
@@ -296,8 +304,10 @@ ENGINE_TYPES = ['TF', 'MTF', 'XX']
 BPR_QUICK = [0.0, 5.1, 11.0]
 BPR_THOROUGH = [0.0, 0.3, 5.1, 11.0]
 
-FSC = [0.0, 1.0, 10.0, 600.0, 1000.0, 3000.0, 5000.0]
-YIELD = [0.0, 0.005, 0.02, 0.05, 0.5, 1.0]
+FSC = [0.0, 5e-324, 1e-9, 1e-6, 1e-3, 0.1, 0.5, 0.999, NEXT(1.0, 0.0), 1.0, NEXT(1.0, INF), 10.0, 600.0, 1000.0, 3000.0, 5000.0]
+YIELD = [0.0, 1e-9, 1e-3, 0.02, 0.5, 0.999, 1.0]
+FUEL_ROUTES = ['keywords', 'validate-dict', 'toml']
+FUEL_SMALL = [1e-9, 1e-3, 0.5, 0.999, 1.0, 3160.0]  # other fuel parameters (EI_CO2 / EI_H2O) down to very small values
 NAMED_FUELS = ['conventional_jetA', 'SAF']  # tests/data/fuels/synthetic_jet.toml is an empty file
 
 FOA3_THRUST = sorted(
@@ -378,6 +388,13 @@ def sublattices(tier, seed):
             ],
         }
     )
+    subs.append(
+        {
+            'name': 'route: construction route / key order of every ThrustModeValues argument x certification set',
+            'axes': {'route': TMV_ROUTES, 'cs': ROUTE_CERTS},
+            'cases': [{'k': 'route', 'route': r, 'cs': c} for r in TMV_ROUTES for c in ROUTE_CERTS],
+        }
+    )
     nsn = [5e-324, 1e-12, 1e-9, 1e-6, 1e-4, 1e-3]
     subs.append(
         {
@@ -412,8 +429,10 @@ def sublattices(tier, seed):
     subs.append(
         {
             'name': 'sox: sulfur content x sulfate yield, and shipped fuels',
-            'axes': {'fsc': FSC, 'y': YIELD, 'named': NAMED_FUELS},
-            'cases': [{'k': 'sox', 'fsc': a, 'y': b} for a in FSC for b in YIELD] + [{'k': 'sox', 'named': n} for n in NAMED_FUELS],
+            'axes': {'fsc': FSC, 'y': YIELD, 'route': FUEL_ROUTES, 'named': NAMED_FUELS, 'EI_CO2/EI_H2O': FUEL_SMALL},
+            'cases': [{'k': 'sox', 'fsc': a, 'y': b, 'route': rt} for a in FSC for b in YIELD for rt in FUEL_ROUTES]
+            + [{'k': 'sox', 'fsc': 600.0, 'y': 0.02, 'route': rt, 'co2': a, 'h2o': b} for rt in FUEL_ROUTES for a in FUEL_SMALL for b in FUEL_SMALL]
+            + [{'k': 'sox', 'named': n} for n in NAMED_FUELS],
         }
     )
     sn = SN_THOROUGH if tier == 'thorough' else SN_QUICK
@@ -882,6 +901,109 @@ def _run_cat(case):
                 acc.add('element-dependence', f'category at ff={flows[j]!r}: alone {c0}, in vector {cat_list[j]} ff_cal={ffcal}')
     order = 'idle-thr<=climb-thr' if low <= high else 'idle-thr>climb-thr'
     return {'outcome': f'cat:{order}:{len(set(case["ranks"]))}-distinct-flows', 'nontrivial': acc.compared > 0, 'violations': acc.v}
+
+
+# --------------------------------------------------------------------------- construction routes
+
+
+def _tmv_route(vals, route):
+    """ThrustModeValues holding vals (idle, approach, climb, take-off) built along the given route."""
+    S = _STATE
+    TMV, TM = S['TMV'], list(S['ThrustMode'])
+    vals = [float(v) for v in vals]
+    rev = {TM[k]: vals[k] for k in (3, 2, 1, 0)}
+    if route == 'positional':
+        return TMV(*vals)
+    if route == 'ndarray':
+        return TMV(np.array(vals))
+    if route.startswith('dict:'):
+        return TMV({TM[int(ch)]: vals[int(ch)] for ch in route[5:]})
+    if route in ('fill-reversed', 'fill-takeoff-first'):
+        t = TMV(mutable=True)
+        for k in ((3, 2, 1, 0) if route == 'fill-reversed' else (3, 0, 1, 2)):
+            t[TM[k]] = vals[k]
+        return t
+    if route == 'arithmetic-of-reversed':
+        return TMV(dict(rev)) * 1.0
+    if route == 'copy-of-reversed':
+        return TMV(dict(rev)).copy()
+    if route == 'or-merge-of-reversed':
+        return TMV(dict(rev)) | {}
+    raise KeyError(route)
+
+
+def _run_route(case):
+    S = _STATE
+    acc = _Acc()
+    route, cs = case['route'], CERT[case['cs']]
+    TM = list(S['ThrustMode'])
+    mk = lambda v: _tmv_route(v, route)  # noqa: E731
+    # the container itself
+    try:
+        t0 = mk(cs['ff'])
+        acc.compared += 1
+        if [float(t0[mo]) for mo in TM] != cs['ff']:
+            acc.add('route-container', f'{route}: item access gives {[float(t0[mo]) for mo in TM]} for {cs["ff"]}')
+        arr = [float(x) for x in t0.as_array()]
+        if arr != cs['ff']:
+            acc.add('route-container', f'{route}: as_array() = {arr} but (idle, approach, climb, take-off) = {cs["ff"]}')
+        if not _close(t0.sum(), math.fsum(cs['ff']), 1e-12):
+            acc.add('route-container', f'{route}: sum() = {t0.sum()!r}')
+    except Exception as ex:  # noqa: BLE001
+        acc.add('route-container', f'{route}: {type(ex).__name__}: {str(ex)[:160]}')
+        return {'outcome': f'route:{route.split(":")[0]}:raised', 'nontrivial': True, 'violations': acc.v}
+    flows = flow_alphabet(cs)
+    ff = np.array(flows)
+    n = len(ff)
+    for h in (0.0, 12000.0):
+        t, p = R.isa_temperature(h), R.isa_pressure(h)
+        tv, pv = np.full(n, t), np.full(n, p)
+        ref_cats = [R.thrust_category(x, cs['ff']) for x in flows]
+        ok, cats = _call(acc, 'category-raised', f'get_thrust_cat_cruise [{route}]', S['eutils'].get_thrust_cat_cruise, ff, mk(cs['ff']))
+        if ok:
+            cl = [str(getattr(c, 'value', c)) for c in cats]
+            acc.compared += 1
+            if cl != ref_cats:
+                acc.add('route-thrust-category', f'{route}: categories {cl} != reference {ref_cats} for ff_cal={cs["ff"]}')
+        ok, res = _call(acc, 'nox-raised', f'BFFM2_EINOx [{route}]', S['nox'].BFFM2_EINOx, ff, mk(cs['nox']), mk(cs['ff']), tv, pv)
+        if ok:
+            curve = R.bffm2_nox_curve(cs['nox'], cs['ff'], t, p)
+            for j in range(n):
+                if flows[j] > 0:
+                    acc.cmp('route-nox', lambda j=j: f'{route}: NOx EI at ff={flows[j]!r} EI={cs["nox"]} ff_cal={cs["ff"]} h={h}', res.NOxEI[j], curve(flows[j]))
+        for label in ('hc', 'co'):
+            ok, got = _call(acc, 'hcco-raised', f'EI_HCCO[{label}] [{route}]', S['hcco'].EI_HCCO, ff, mk(cs[label]), mk(cs['ff']), tv, pv)
+            if ok:
+                _check_hcco(acc, f'{label}', np.asarray(got, float), flows, cs[label], cs['ff'], t, p)
+    # SCOPE11 and MEEM on an engine entry whose per-mode tables are all built along the route
+    sn, mass, num = [2.1, 3.5, 11.2, 13.4], [0.74, 1.72, 44.0, 70.8], [2.66e13, 7.1e13, 4.33e14, 4.02e14]
+    for et in ('TF', 'MTF'):
+        ok, prof = _call(acc, 'scope11-raised', f'calculate_PMnvolEI_scope11 [{route}]', S['pmnvol'].calculate_PMnvolEI_scope11, mk(sn), et, 5.1)
+        if ok:
+            for mo, name, x in zip(TM, R.MODES, sn):
+                acc.cmp('route-scope11', f'{route}: nvPM mass EI mode={name} SN={x} type={et}', prof[mo], R.scope11_mass(x, name, et, 5.1))
+    alts = np.array([4000.0, 6000.0, 9000.0, 9000.0, 7000.0])
+    tv = np.array([R.isa_temperature(a) for a in alts])
+    pv = np.array([R.isa_pressure(a) for a in alts])
+    mv = np.full(5, 0.7)
+    for neg in (False, True):  # measured indices, and indices reconstructed from the smoke numbers
+        def entry(build):
+            e = _edb(sn, 'TF', 5.1)
+            e.SN_matrix, e.PR = build(sn), build([29.0, 29.0, 29.0, 29.0])
+            e.nvPM_mass_matrix = build([-1.0] * 4 if neg else mass)
+            e.nvPM_num_matrix = build([-1.0] * 4 if neg else num)
+            return e
+        try:
+            got = S['pmnvol'].PMnvol_MEEM(entry(mk), alts, tv, pv, mv)
+            base = S['pmnvol'].PMnvol_MEEM(entry(_tmv), alts, tv, pv, mv)
+            acc.compared += 1
+            for nm, a, b in zip(('GMD', 'mass', 'number'), got, base):
+                acc.sane(f'{route}: MEEM {nm}', a)
+                if not np.allclose(np.asarray(a, float), np.asarray(b, float), rtol=1e-12, atol=0.0):
+                    acc.add('route-meem', f'{route}: MEEM {nm} {np.asarray(a).tolist()} != {np.asarray(b).tolist()} for the same tables given positionally (from-SN={neg})')
+        except Exception as ex:  # noqa: BLE001
+            acc.add('meem-raised', f'{route}: {type(ex).__name__}: {str(ex)[:160]}')
+    return {'outcome': f'route:{route.split(":")[0]}', 'nontrivial': acc.compared > 0, 'violations': acc.v}
 
 
 # --------------------------------------------------------------------------- near-degenerate data
@@ -1648,39 +1770,95 @@ def _run_reuse(case):
 # --------------------------------------------------------------------------- SOx
 
 
+def _make_fuel(route, fsc, y, co2=3160.0, h2o=1230.0):
+    """A Fuel through the requested construction route; 'toml' is the way the library loads one."""
+    S = _STATE
+    fields = dict(
+        name='harness', energy_MJ_per_kg=43.0, EI_H2O=h2o, EI_CO2=co2, non_volatile_carbon_fraction=0.95,
+        fuel_sulfur_content_nom=fsc, sulfate_yield_nom=y,
+    )  # fmt: skip
+    if route == 'keywords':
+        return S['Fuel'](**fields)
+    if route == 'validate-dict':
+        return S['Fuel'].model_validate(fields)
+    import os
+    import shutil
+    import tempfile
+    import tomllib
+
+    d = tempfile.mkdtemp(prefix='vf_')
+    try:
+        path = os.path.join(d, 'fuel.toml')
+        with open(path, 'w') as fp:
+            for k, v in fields.items():
+                fp.write(f'{k} = "{v}"\n' if isinstance(v, str) else f'{k} = {v!r}\n')
+        with open(path, 'rb') as fp:
+            return S['Fuel'].model_validate(tomllib.load(fp))
+    finally:
+        shutil.rmtree(d, ignore_errors=True)
+
+
 def _run_sox(case):
+    """The expected values come from the numbers REQUESTED (or, for shipped fuels, from the TOML file
+    read independently), never from what the Fuel object reports back."""
     S = _STATE
     acc = _Acc()
+    co2, h2o = 3160.0, 1230.0
     if 'named' in case:
+        import tomllib
+
         try:
+            from AEIC.config import config
+
+            raw = tomllib.load(open(config.file_location(f'fuels/{case["named"]}.toml'), 'rb'))
             fuel = S['env'].load_fuel(case['named'])
         except Exception as ex:  # noqa: BLE001
             acc.add('sox-raised', f'cannot load fuel {case["named"]}: {type(ex).__name__}: {ex}')
             return {'outcome': 'sox:fuel-not-loadable', 'nontrivial': True, 'violations': acc.v}
+        fsc, y, co2, h2o = float(raw['fuel_sulfur_content_nom']), float(raw['sulfate_yield_nom']), float(raw['EI_CO2']), float(raw['EI_H2O'])
+        mk = None
     else:
-        fuel = S['Fuel'](
-            name='harness', energy_MJ_per_kg=43.0, EI_H2O=1230.0, EI_CO2=3160.0, non_volatile_carbon_fraction=0.95,
-            fuel_sulfur_content_nom=float(case['fsc']), sulfate_yield_nom=float(case['y']),
-        )  # fmt: skip
-    fsc, y = float(fuel.fuel_sulfur_content_nom), float(fuel.sulfate_yield_nom)
+        fsc, y = float(case['fsc']), float(case['y'])
+        co2, h2o = float(case.get('co2', co2)), float(case.get('h2o', h2o))
+        route = case.get('route', 'keywords')
+        mk = lambda a, b: _make_fuel(route, a, b, co2, h2o)  # noqa: E731
+        try:
+            fuel = mk(fsc, y)
+        except Exception as ex:  # noqa: BLE001
+            acc.add('sox-raised', f'Fuel(FSC={fsc!r}, yield={y!r}) via {route} raised {type(ex).__name__}: {str(ex)[:200]}')
+            return {'outcome': 'sox:fuel-refused', 'nontrivial': True, 'violations': acc.v}
+    # the model must hand back what it was given
+    for nm, exp in (('fuel_sulfur_content_nom', fsc), ('sulfate_yield_nom', y), ('EI_CO2', co2), ('EI_H2O', h2o)):
+        acc.compared += 1
+        if float(getattr(fuel, nm)) != exp:
+            acc.add('fuel-field-altered', f'Fuel.{nm} = {float(getattr(fuel, nm))!r} but {exp!r} was supplied')
     ok, r = _call(acc, 'sox-raised', 'EI_SOx', S['sox'].EI_SOx, fuel)
     if ok:
         e_sox, e_so2, e_so4 = R.sox(fsc, y)
         acc.sane('SOx indices', [r.EI_SOx, r.EI_SO2, r.EI_SO4])
-        acc.cmp('sox', f'EI_SO2 (FSC={fsc} ppm, yield={y})', r.EI_SO2, e_so2, 1e-12)
-        acc.cmp('sox', f'EI_SO4 (FSC={fsc} ppm, yield={y})', r.EI_SO4, e_so4, 1e-12)
-        acc.cmp('sox', f'EI_SOx (FSC={fsc} ppm, yield={y})', r.EI_SOx, e_sox, 1e-12)
+        acc.cmp('sox', f'EI_SO2 (FSC={fsc!r} ppm, yield={y!r})', r.EI_SO2, e_so2, 1e-12)
+        acc.cmp('sox', f'EI_SO4 (FSC={fsc!r} ppm, yield={y!r})', r.EI_SO4, e_so4, 1e-12)
+        acc.cmp('sox', f'EI_SOx (FSC={fsc!r} ppm, yield={y!r})', r.EI_SOx, e_sox, 1e-12)
         s_out = R.sulfur_in(float(r.EI_SO2), float(r.EI_SO4))
-        acc.cmp('sox-sulfur-not-conserved', f'S in SO2+SO4 vs fuel S (FSC={fsc} ppm, yield={y})', s_out, fsc * 1e-3, 1e-12)
+        acc.cmp('sox-sulfur-not-conserved', f'S in SO2+SO4 vs fuel S (FSC={fsc!r} ppm, yield={y!r})', s_out, fsc * 1e-3, 1e-12)
+        # linear in the sulfur content: twice and half the sulfur through the same route
+        if mk is not None and fsc > 0:
+            for kf in (2.0, 0.5):
+                try:
+                    r2 = S['sox'].EI_SOx(mk(kf * fsc, y))
+                    if not (_close(r2.EI_SO2, kf * float(r.EI_SO2), 1e-12) and _close(r2.EI_SO4, kf * float(r.EI_SO4), 1e-12) if (r.EI_SO2 or r.EI_SO4) else True):
+                        acc.add('sox-not-linear', f'FSC {fsc!r} -> {kf * fsc!r} ppm: SO2 {float(r.EI_SO2)!r} -> {float(r2.EI_SO2)!r}, SO4 {float(r.EI_SO4)!r} -> {float(r2.EI_SO4)!r} (expected x{kf})')
+                except Exception as ex:  # noqa: BLE001
+                    acc.add('sox-raised', f'FSC={kf * fsc!r}: {type(ex).__name__}: {str(ex)[:120]}')
         ok, c = _call(acc, 'sox-raised', 'constant_species_values', S['eutils'].constant_species_values, fuel)
         if ok:
             Sp = S['Species']
-            for sp, exp in ((Sp.SOx, r.EI_SOx), (Sp.SO2, r.EI_SO2), (Sp.SO4, r.EI_SO4)):
+            for sp, exp in ((Sp.SOx, e_sox), (Sp.SO2, e_so2), (Sp.SO4, e_so4), (Sp.CO2, co2), (Sp.H2O, h2o)):
                 if sp not in c:
                     acc.add('sox', f'constant_species_values lacks {sp.name} under the default configuration')
                 else:
-                    acc.cmp('sox', f'constant_species_values[{sp.name}]', c[sp], exp, 1e-15)
-    out = 'sox:zero-sulfur' if fsc == 0 else ('sox:no-sulfate' if y == 0 else ('sox:all-sulfate' if y == 1 else 'sox:mixed'))
+                    acc.cmp('sox', f'constant_species_values[{sp.name}] (FSC={fsc!r}, yield={y!r}, CO2={co2!r}, H2O={h2o!r})', c[sp], exp, 1e-12)
+    out = 'sox:zero-sulfur' if fsc == 0 else ('sox:sub-ppm' if fsc < 1 else ('sox:no-sulfate' if y == 0 else ('sox:all-sulfate' if y == 1 else 'sox:mixed')))
     return {'outcome': out, 'nontrivial': acc.compared > 0, 'violations': acc.v}
 
 
@@ -1917,7 +2095,7 @@ def _run_meem(case):
 
 # --------------------------------------------------------------------------- dispatch
 
-_RUN = {'near': _run_near, 'nearsn': _run_nearsn, 'repr': _run_repr, 'degen': _run_degen, 'ffm2p': _run_ffm2p, 'reuse': _run_reuse, 'cat': _run_cat, 'isa': _run_isa, 'chain': _run_chain, 'sox': _run_sox, 's11': _run_s11, 'foa3': _run_foa3, 'meem': _run_meem}
+_RUN = {'route': _run_route, 'near': _run_near, 'nearsn': _run_nearsn, 'repr': _run_repr, 'degen': _run_degen, 'ffm2p': _run_ffm2p, 'reuse': _run_reuse, 'cat': _run_cat, 'isa': _run_isa, 'chain': _run_chain, 'sox': _run_sox, 's11': _run_s11, 'foa3': _run_foa3, 'meem': _run_meem}
 
 
 def run_case(case):
